@@ -1762,7 +1762,16 @@ fn process_dom_node<T: Write>(
                     td_to_render_tree(input, computed, err_out)
                 }
                 expanded_name!(html "blockquote") => pending_noempty(input, move |_, cs| {
-                    Some(RenderNode::new_styled(BlockQuote(cs), computed))
+                    // A quote holding only white space has nothing to render (and
+                    // must not need room for its prefix either).
+                    if cs
+                        .iter()
+                        .all(|n| matches!(&n.info, Text(t) if t.trim().is_empty()))
+                    {
+                        None
+                    } else {
+                        Some(RenderNode::new_styled(BlockQuote(cs), computed))
+                    }
                 }),
                 expanded_name!(html "ul") => pending_noempty(input, move |_, cs| {
                     // White space between the items (or between the tags of a
